@@ -48,13 +48,15 @@ def gen_algo_case(rng, ctx, classes="D1 D2 D3 D3 D4 D5 D6 D7 D8 D9 D10 D10", sch
 
 
 INSTANCES = {}
+USES = {}
 
 
 def get_instance(cfg, libseed):
     """a user typically builds one algorithm object and applies it to many datasets and schemes: two thirds of the
     runs reuse the instance built earlier in this process (state leaking from one call into the next then shows up in
-    the oracles), one third builds a fresh one"""
-    if libseed % 3 != 0 and cfg in INSTANCES:
+    the oracles), every fourth use builds a fresh one"""
+    USES[cfg] = USES.get(cfg, 0) + 1
+    if USES[cfg] % 4 != 1 and cfg in INSTANCES:
         return "ok", INSTANCES[cfg]
     st, alg = call(libx.make_algorithm, cfg)
     if st == "ok":
